@@ -25,6 +25,7 @@ import (
 	channeltypes "github.com/cosmos/ibc-go/v8/modules/core/04-channel/types"
 	porttypes "github.com/cosmos/ibc-go/v8/modules/core/05-port/types"
 
+	"github.com/noble-assets/orbiter/v2/entrypoint"
 	adaptertypes "github.com/noble-assets/orbiter/v2/types/component/adapter"
 	executortypes "github.com/noble-assets/orbiter/v2/types/component/executor"
 	forwardertypes "github.com/noble-assets/orbiter/v2/types/component/forwarder"
@@ -67,6 +68,17 @@ func (s *Sim) stackNoOrbiter() porttypes.IBCModule {
 var rePtr = regexp.MustCompile(`\{[0-9]{6,}\}`)
 
 func normPtr(s string) string { return rePtr.ReplaceAllString(s, "{ptr}") }
+
+// stackOrbiterOnly / stackBare: the orbiter middleware directly around the transfer application, and the
+// transfer application alone (no blockibc in front, which in the app's stack rejects some malformed
+// data before the orbiter middleware sees it).
+func (s *Sim) stackOrbiterOnly() porttypes.IBCModule {
+	return entrypoint.NewIBCMiddleware(transfer.NewIBCModule(s.N.App.TransferKeeper), s.N.App.IBCKeeper.ChannelKeeper, s.N.App.OrbiterKeeper.Adapter())
+}
+
+func (s *Sim) stackBare() porttypes.IBCModule {
+	return transfer.NewIBCModule(s.N.App.TransferKeeper)
+}
 
 func renderEvents(evs sdk.Events) []string {
 	var out []string
@@ -181,6 +193,10 @@ func (s *Sim) runShadows(p *Pkt) *shadowResult {
 	s.Stats.Count("shadow_executions")
 	if hasShadow(prof, "nomw") && !in.ToOrbiter {
 		res.V["nomw"] = s.runVariant("nomw", nil, true, s.recvCB(s.stackNoOrbiter(), pkt, rel))
+		res.V["mwonly"] = s.runVariant("mwonly", nil, true, s.recvCB(s.stackOrbiterOnly(), pkt, rel))
+		res.V["bare"] = s.runVariant("bare", nil, true, s.recvCB(s.stackBare(), pkt, rel))
+		s.Stats.Count("shadow_executions")
+		s.Stats.Count("shadow_executions")
 		s.Stats.Count("shadow_executions")
 	}
 	if !in.ToOrbiter {
@@ -429,6 +445,21 @@ func (s *Sim) checkShadow(m *txMeta, p *Pkt, in *PktInfo, mo *MsgObs, ack AckInf
 		}
 		if base.OrbStore != s.orbDigestNow() {
 			s.violate("C07", "orbiter-state-untouched", "orbiter-store-changed", fmt.Sprintf("packet op=%d", p.Origin))
+		}
+		// the same relation at the level of the middleware itself: orbiter(transfer) vs transfer alone
+		if mw, bare := sh.V["mwonly"], sh.V["bare"]; mw != nil && bare != nil {
+			s.Stats.Count("rule:C07.differential-middleware-level")
+			if string(mw.Ack) != string(bare.Ack) || mw.Panic != bare.Panic {
+				s.violate("C07", "same-as-wrapped-application-alone", "ack-differs class="+cls, fmt.Sprintf("packet op=%d data=%.200q: orbiter(transfer) %.200s / transfer alone %.200s", p.Origin, string(p.Data), mw.Ack, bare.Ack))
+			}
+			if !sameStrs(mw.Events, bare.Events) {
+				s.violate("C07", "same-as-wrapped-application-alone", "events-differ class="+cls, fmt.Sprintf("packet op=%d: %s", p.Origin, firstDiff(mw.Events, bare.Events)))
+			}
+			for _, name := range sortedKeys(bare.Stores) {
+				if bare.Stores[name] != mw.Stores[name] {
+					s.violate("C07", "same-as-wrapped-application-alone", "state-differs store="+name, fmt.Sprintf("packet op=%d: store %s", p.Origin, name))
+				}
+			}
 		}
 	}
 	if !in.ToOrbiter {
